@@ -54,7 +54,7 @@ C10_PerLocalAddress == (J /\ Wld /\ T.usable) =>
                          /\ \A k \in 2..Len(WD) : ~WD[k].closed /\ WD[k].again /\ WD[k].againNth = 2
 \* ... and a connection the server opens itself (NewConn) is that peer's connection whatever local addresses other peers have been
 \* talking to: the answer to a request sent on it reaches the request
-C10_ServerInitiated == (J /\ Wld /\ T.usable /\ T.srvAsked /\ T.srvReqSeen) => T.srvAnswered
+C10_ServerInitiated == (J /\ Wld /\ T.usable /\ T.srvAsked /\ T.srvReqSeen) => (T.srvAnswered /\ T.afterCloseServed)   \* and once it is closed the peer is served again
 \* a tcp server that probes idle peers (keep-alive): a peer that stalls is dropped - and only that peer: the well-behaved
 \* one, idle meanwhile and answering its own probes, keeps its connection and its answers
 C10_StalledPeerAlone == (J /\ T.op = "kastall" /\ T.gBefore /\ T.xDropped) => (T.gDropped = 0 /\ ~T.gClosed /\ T.gAfter)
